@@ -93,6 +93,8 @@ class FakeChannel:
             # for this worker (`sendcommand` swallows the error), exactly as if it had been lost in the pipe.
             if w.boot_msg is not None and w.death_hold is not None:
                 w.death_hold["inflight"].append(obj)
+            if w.boot_msg is not None:
+                self.sim.lost_sends.append((w.id, obj[0], obj[1] if len(obj) > 1 else {}))   # attempted, swallowed by sendcommand
             raise OSError("cannot send (already closed?)")
         if w.boot_msg is None:
             w.boot_msg = obj            # (workerinput, args, option_dict, change_sys_path)
@@ -498,6 +500,7 @@ class Sim:
         self.q_breaks: list[tuple] = []     # load mode: loop boundaries at which a registered live worker holds < 2 tests while the pool is non-empty
         self.ready_ids: list[str] = []
         self.steal_breaks: list[tuple] = []  # worksteal: a processed steal answer whose tests are still in the victim's book
+        self.lost_sends: list[tuple] = []    # (worker id, command, payload): sends that raised OSError (dead peer), in order
         self.replay = list(schedule) if schedule is not None else None
         self.wirelog: list[tuple[str, str, Any]] = []     # (worker id, command, payload) in send order
         self.published: list[tuple] = []
@@ -682,7 +685,8 @@ class Sim:
         self.ctl_obs += ["ok"] * len(self._flag_lines)
         self._flag_lines = []
         self._crash_requeued = False
-        self._open = {"event": callname, "kwargs": kwargs, "wire_from": len(self.wirelog), "pub_from": len(self.obs_pub)}
+        self._open = {"event": callname, "kwargs": kwargs, "wire_from": len(self.wirelog), "pub_from": len(self.obs_pub),
+                      "lost_from": len(self.lost_sends)}
         return item
 
     def event_line(self, callname: str, kw: dict[str, Any]) -> str:
@@ -752,6 +756,9 @@ class Sim:
             v = o["kwargs"]["node"]
             book = list(self.dsession.sched.node2pending.get(v, []))
             resent = [i for wid, name, kw in self.wirelog[o["wire_from"]:] if wid == v.gateway.id and name == "runtests" for i in kw["indices"]]
+            # ... also when the victim is dead and not yet noticed: the send raised OSError, was swallowed, and the tests are booked
+            # for it all the same (remove_node recovers them) -- not a wrong book
+            resent += [i for wid, name, kw in self.lost_sends[o.get("lost_from", 0):] if wid == v.gateway.id and name == "runtests" for i in kw.get("indices", [])]
             left = [i for i in o["kwargs"]["indices"] if i in book and i not in resent]
             if left:
                 self.steal_breaks.append((len(self.ctl_lines), v.gateway.id, list(o["kwargs"]["indices"]), left))
